@@ -17,7 +17,7 @@ ASSUMPTIONS = ["files are identified by path; a compile gives every file its imp
                "findExtension's walk over nested messages is flattened to a list of (extendee, tag, extension) per file",
                "FindMessageByName / FindExtensionByName / FindMessageByURL use the same traversal with a lookup that can also fail with a kind error; "
                "not modelled in Coq, observed and judged by the plugin's visible-set oracle only",
-               "an import carries IsPublic and IsWeak (both can be set only through a descriptor proto); the model keeps both flags and never reads IsWeak"]
+               "an import carries IsPublic and IsWeak (both can be set only through a descriptor proto); the model keeps the weak imports of a file as a list of paths (vf_weak) that the walk never reads"]
 
 
 def q(parent, n):
@@ -322,9 +322,10 @@ def run(ctx):
                 nid.setdefault(e, len(nid))
         nid.setdefault("zz.Nothing", len(nid))
         g_term = "[%s]" % "; ".join(
-            "mkV %d [%s] [%s] [%s]" % (f.i, "; ".join("(%d, %s, %s)" % (g.i, coq_bool(is_pub(k)), coq_bool(is_weak(k))) for g, k in f.imports),
+            "mkV %d [%s] [%s] [%s] [%s]" % (f.i, "; ".join("(%d, %s)" % (g.i, coq_bool(is_pub(k))) for g, k in f.imports),
                                       "; ".join(str(nid[n]) for n in f.names),
-                                      "; ".join("(%d, %d%%Z, %d)" % (nid[e], t, nid[x]) for e, t, x in f.exts))
+                                      "; ".join("(%d, %d%%Z, %d)" % (nid[e], t, nid[x]) for e, t, x in f.exts),
+                                           "; ".join(str(g.i) for g, k in f.imports if is_weak(k)))
             for f in files)
         roots = []
         rmeta = []
